@@ -1,20 +1,10 @@
-// Kernel seam for C13: exposes the static functions of mdtraj/geometry/src/sasa.cpp to ctypes.
+// Kernel seam for C13: exposes the static point-set generator of mdtraj/geometry/src/sasa.cpp to ctypes.
+// Only generate_sphere_points(float*, int) is referenced: the check must keep compiling when other internal
+// signatures (asa_frame, ...) change; if even this one changes, props/C13.py skips the comparison with a WARNING.
 #include "sasa.cpp"
 
 extern "C" {
 
 void seam_sphere_points(float* out, int n) { generate_sphere_points(out, n); }
-
-// one frame through asa_frame with freshly zeroed work/output buffers
-void seam_asa_frame(const float* frame, int n_atoms, const float* radii, int n_pts,
-                    const int* mask, float* areas) {
-    float* sp = (float*) malloc(sizeof(float) * 3 * n_pts);
-    generate_sphere_points(sp, n_pts);
-    int* wb1 = (int*) malloc(sizeof(int) * n_atoms);
-    float* wb2 = (float*) malloc(sizeof(float) * 3 * n_pts);
-    for (int i = 0; i < n_atoms; i++) areas[i] = 0;
-    asa_frame(frame, n_atoms, radii, sp, n_pts, wb1, wb2, mask, areas);
-    free(sp); free(wb1); free(wb2);
-}
 
 }
